@@ -33,6 +33,8 @@ type Site struct {
 	Form     string       // "assign", "return", "discard", "blank", "exprstmt", "other"
 	Pos      token.Pos
 	Findings []Finding
+	Sinks    []*ast.CallExpr // sink calls that received the error while it was pending / non-nil
+	Guarded  []*types.Var    // extra variables (e.g. a decode destination) that must not be used before the error is ruled out
 }
 
 // Finding is a violation of the must-propagate rule at a site.
@@ -56,6 +58,8 @@ type Config struct {
 	// NoReturnOK, when set, says whether ending the path in this never-returning call is an acceptable way to leave with a
 	// pending/non-nil error (e.g. false for os.Exit(0)).
 	NoReturnOK func(call *ast.CallExpr) bool
+	// GuardedVars returns extra variables whose use is forbidden while the site's error is pending / non-nil.
+	GuardedVars func(s *Site) []*types.Var
 	// NoResultFunc: the enclosing function has no error result (e.g. ServeHTTP): reaching any exit while pending/nonnil
 	// is a violation unless handled by a sink.
 	NoResultFunc bool
@@ -565,6 +569,12 @@ func (a *analysis) track(s *Site) {
 		}
 	}
 	checkVal := a.conf.CheckValueUse != nil && a.conf.CheckValueUse(s)
+	if a.conf.GuardedVars != nil {
+		s.Guarded = a.conf.GuardedVars(s)
+		if len(s.Guarded) > 0 {
+			checkVal = true
+		}
+	}
 	// flow processes the nodes of b from index i with incoming state st and propagates to successors
 	var work []*cfg.Block
 	push := func(b *cfg.Block, st uint8) {
@@ -622,9 +632,20 @@ func (a *analysis) track(s *Site) {
 				break
 			}
 			// sinks
-			if a.conf.Sink != nil && st&(stP|stN) != 0 && a.sinkIn(n, s) {
-				st = (st &^ (stP | stN)) | stH
-				continue
+			if a.conf.Sink != nil && st&(stP|stN) != 0 {
+				if sc := a.sinkIn(n, s); sc != nil {
+					dup := false
+					for _, x := range s.Sinks {
+						if x == sc {
+							dup = true
+						}
+					}
+					if !dup {
+						s.Sinks = append(s.Sinks, sc)
+					}
+					st = (st &^ (stP | stN)) | stH
+					continue
+				}
 			}
 			if checkVal && st&(stP|stN) != 0 {
 				a.valueUses(s, n, report)
@@ -719,10 +740,10 @@ func (a *analysis) assignsVar(n ast.Node, s *Site) (assigns bool, other bool) {
 	return false, false
 }
 
-func (a *analysis) sinkIn(n ast.Node, s *Site) bool {
-	found := false
+func (a *analysis) sinkIn(n ast.Node, s *Site) *ast.CallExpr {
+	var found *ast.CallExpr
 	ast.Inspect(n, func(m ast.Node) bool {
-		if found {
+		if found != nil {
 			return false
 		}
 		if _, ok := m.(*ast.FuncLit); ok {
@@ -730,7 +751,7 @@ func (a *analysis) sinkIn(n ast.Node, s *Site) bool {
 		}
 		if call, ok := m.(*ast.CallExpr); ok {
 			if a.conf.Sink(call, typeutil.Callee(a.info, call)) && (a.conf.SinkNoMention || mentions(a.info, call, s.Var)) {
-				found = true
+				found = call
 			}
 		}
 		return true
@@ -741,7 +762,7 @@ func (a *analysis) sinkIn(n ast.Node, s *Site) bool {
 func (a *analysis) valueUses(s *Site, n ast.Node, report func(kind string, pos token.Pos, msg string)) {
 	ast.Inspect(n, func(m ast.Node) bool {
 		if id, ok := m.(*ast.Ident); ok {
-			for _, v := range s.ValVars {
+			for _, v := range append(append([]*types.Var{}, s.ValVars...), s.Guarded...) {
 				if a.info.Uses[id] == v {
 					report("value-used-on-error-path", id.Pos(), fmt.Sprintf("result %q of the fallible call is used before its error has been ruled out", v.Name()))
 				}
